@@ -139,6 +139,7 @@ def run(ctx):
     two_app_new_model_runs(ctx)
     other_database_runs(ctx)
     inside_atomic_runs(ctx)
+    unmanaged_model_runs(ctx)
     migration_runs(ctx, quick)
     migration_app_runs(ctx)
     ncases = 9 if quick else 120
@@ -465,6 +466,51 @@ def inside_atomic_runs(ctx):
                          % (k, 'returned normally' if rk[0] == 'ok' else 'raised', names[-1:]), repk)
             for p in check_trace(trk, rk[0]) + after_fault_problems(trk, rk[0]):
                 ctx.fail(None, 'upgrade inside the caller\'s transaction, RELEASE SAVEPOINT #%d fails: %s' % (k, p), repk)
+
+
+def unmanaged_model_runs(ctx):
+    """a release that adds a regular model and a model that Django does not manage (Meta.managed = False): whatever
+    created_models names was created between the pair - fault-free, and nothing is announced that was not done"""
+    import random
+    from .. import dbrig
+
+    def fld(name, t, related=None, **attrs):
+        return {'name': name, 'type': t, 'attrs': attrs, 'related': related}
+
+    def mdl(name, fields, **extra):
+        return dict({'name': name, 'table': 'vapp_%s' % name.lower(), 'unique_together': [], 'index_together': [],
+                     'indexes': [], 'constraints': [], 'fields': [fld('id', 'AutoField', primary_key=True)] + fields}, **extra)
+    a0 = mdl('Alpha', [fld('a', 'IntegerField', null=True)])
+    spec0 = {'apps': [{'id': 'vapp', 'models': [a0]}]}
+    spec1 = {'apps': [{'id': 'vapp', 'models': [a0, mdl('Shelf', [fld('n', 'IntegerField', null=True)]),
+                                                 mdl('Legacy', [fld('code', 'IntegerField', null=True)], managed=False)]}]}
+    evorig.fresh_databases()
+    evorig.clear_evolutions()
+    evorig.install_models(spec0)
+    if evorig.run_evolver()[0] != 'ok':
+        ctx.count('unmanaged_model:start_failed')
+        return
+    evorig.install_models(spec1)
+    tr = evorig.Trace()
+    r = evorig.run_evolver(trace=tr)
+    rep = {'scenario': 'a release adds a regular and an unmanaged model', 'signals': tr.signals()}
+    ctx.count('unmanaged_model:%s' % r[0])
+    ctx.case({'scenario': rep['scenario'], 'signals': [x[0] for x in tr.signals()]}, nontrivial=True, sample_cap=1)
+    for p in check_trace(tr, r[0]) + (saved_problems(tr) if r[0] == 'ok' else []):
+        ctx.fail(None, 'release with an unmanaged model: %s' % p, rep)
+    schema = dbrig.abs_schema()
+    tables = {'Shelf': 'vapp_shelf', 'Legacy': 'vapp_legacy', 'Alpha': 'vapp_alpha'}
+    named = [nm for n, info in tr.signals() if n == 'created_models' for nm in info.get('models', [])]
+    for nm in named:
+        t = tables.get(nm.split('.')[-1])
+        if t and t not in schema:
+            ctx.fail(None, 'created_models names %s, but its table %s was not created' % (nm, t), rep)
+    # a further run: what was announced as created is not announced again
+    tr2 = evorig.Trace()
+    evorig.run_evolver(trace=tr2)
+    again = [nm for n, info in tr2.signals() if n == 'created_models' for nm in info.get('models', [])]
+    if again:
+        ctx.fail(None, 'a further run announces %s as created again' % again, dict(rep, second_run=tr2.signals()))
 
 
 def other_database_runs(ctx):
